@@ -17,7 +17,8 @@ LEVEL = "proof"
 LEVEL_TEXT = ("Lean 4 theorems for all states of the per-target decision model: a tainted selected target whose dependencies succeeded "
               "executes even with a valid result and the taint is gone when its execution has succeeded; a no-cache target always executes "
               "and is never restored; with the cache disabled every target whose dependencies succeeded executes; in all three cases the "
-              "output hash handed to dependants is a function of the produced output values only (injective in (definition, value)), so "
+              "output hash handed to dependants is a function of the produced output values only (injective in (definition, value); a target "
+              "without outputs exposes its own key in all three cases, outputless_exposes_key), so "
               "dependants' keys change only if outputs changed. Lifted to whole builds and histories: in a mode-all build over a well-formed "
               "order a selected target whose dependencies succeeded is executed if it is tainted at the start / no-cache / the cache is "
               "disabled (forced_executed_in_build); its taint is gone iff the build marked it successful (taint_after_build); a pending taint "
@@ -43,6 +44,8 @@ OBLIGATIONS = [
     "Grog.C13.no_cache_never_restored",
     "Grog.C13.disabled_executes_all",
     "Grog.C13.dependants_iff_outputs_changed",
+    "Grog.C13.outputless_exposes_key",
+    "Grog.C13.outputless_disabled_witness",
     "Grog.C13.async_taint_witness",
     "Grog.C13.forced_executed_in_build",
     "Grog.C13.taint_after_build",
@@ -174,9 +177,9 @@ def run(ctx):
                 if ex != expect:
                     sig = "taint-only-executed-set"
                     extra = ex - expect
-                    # open finding: an output-less (cached) target that ran while the cache was disabled left a record that is a usable
-                    # hit later and exposes the no-cache output hash; when the target runs again with the cache enabled it exposes
-                    # its own change hash instead, and its dependants are invalidated once although nothing changed
+                    # (repaired finding, the signature is kept) an output-less (cached) target that ran while the cache was disabled left a
+                    # record that is a usable hit later and exposed the no-cache output hash; when the target ran again with the cache
+                    # enabled it exposed its own change hash instead, and its dependants were invalidated once although nothing changed
                     disabled_before = any(x["k"] == "build" and not x.get("enable_cache", True) for x in H.truncate(h, b["n"] + 1)["steps"])
                     bare = {d for d in ws["targets"] if not ws["targets"][d]["outs"] and not ws["targets"][d].get("nocache") and d in ex}
                     if extra and not (expect - ex) and disabled_before and bare and extra <= H.descendants(ws, bare):
